@@ -196,6 +196,60 @@ def noise(rng):
     return "".join(chr(rng.choice([rng.randrange(32, 127), rng.randrange(1, 32), rng.randrange(160, 0x2000), 10, 32, 47, 42])) for _ in range(n))
 
 
+CONST_TYS = ["bool", "u8", "u16", "u32", "u64", "usize", "i8", "i16", "i32", "i64"]
+
+
+def const_decls(rng):
+    """a program around 1-4 constant declarations: expressions over literals, earlier constants, min / max of 0-3
+    arguments, + and -, mostly of the declared type (Booleans included) and now and then of another type, a later or
+    unknown constant or an external value; most without external values, so that the compiler gets as far as
+    evaluating them"""
+    n = rng.randrange(1, 5)
+    names = [f"C{i}" for i in range(n)]
+    tys = [rng.choice(CONST_TYS) for _ in names]
+    with_ext = rng.random() < 0.25
+
+    def lit(t):
+        if rng.random() < 0.1:
+            t = rng.choice(CONST_TYS)
+        if t == "bool":
+            return rng.choice(["true", "false"])
+        bits = int(t[1:]) if t[1:].isdigit() else 32
+        hi = (1 << (bits - 1)) - 1 if t.startswith("i") else (1 << bits) - 1
+        v = rng.choice([0, 1, 2, 7, 100, hi, hi - 1, hi // 2])
+        if t.startswith("i") and rng.random() < 0.4:
+            v = -v - rng.choice([0, 1])
+        return f"{v}{t}" if rng.random() < 0.9 else str(v)
+
+    def expr(d, t, k):
+        r = rng.random()
+        if d <= 0 or r < 0.35:
+            r2 = rng.random()
+            same = [c for c, ct in list(zip(names, tys))[:k] if ct == t]
+            if r2 < 0.5 or (r2 < 0.8 and not same):
+                return lit(t)
+            if r2 < 0.8:
+                return rng.choice(same)
+            if r2 < 0.9 or not with_ext:
+                return rng.choice(names + ["NOPE"])
+            return f"PARTY_{rng.randrange(0, 2)}::X{rng.randrange(0, 3)}"
+        if r < 0.65:
+            return f"{rng.choice(['min', 'max'])}(" + ", ".join(expr(d - 1, t, k) for _ in range(rng.choice([0, 1, 2, 2, 3]))) + ")"
+        return f"{expr(d - 1, t, k)} {rng.choice(['+', '-'])} {expr(d - 1, t, k)}"
+    text = "".join(f"const {c}: {t} = {expr(2, t, k)};\n" for k, (c, t) in enumerate(zip(names, tys)))
+    k = rng.randrange(n)
+    use = rng.choice(["ret", "ret", "size", "op"])
+    if use == "size" and tys[k] == "usize" and (re.search(r"\d{5,}", text) or "-" in text):
+        use = "ret"          # a huge array: resource exhaustion is the recorded finding huge-declared-size
+    if use == "ret":
+        text += f"pub fn main(x: u8) -> {tys[k]} {{ {names[k]} }}\n"
+    elif use == "size":
+        text += f"pub fn main(x: [u8; {names[k]}]) -> u8 {{ x[0usize] }}\n"
+    else:
+        text += f"pub fn main(x: {tys[k]}) -> bool {{ x == {names[k]} }}\n"
+    return text
+
+
 def meta_ok(m, nlines):
     s, e = (m[0], m[1]), (m[2], m[3])
     return s <= e and m[0] <= nlines and m[2] <= nlines
@@ -288,6 +342,8 @@ def run(ctx):
         cases.append({"id": len(cases), "op": "frontend", "src": soup(ctx.rng), "kind": "soup"})
     for _ in range(3000 if quick else 40000):
         cases.append({"id": len(cases), "op": "frontend", "src": noise(ctx.rng), "kind": "noise"})
+    for _ in range(1500 if quick else 25000):
+        cases.append({"id": len(cases), "op": "frontend", "src": const_decls(ctx.rng), "kind": "const-decls"})
     # literal strings given to the argument parser
     lit_prog = "struct S { a: u8, b: (bool, i16) }\nenum E { A, B(u8, S) }\npub fn main(x: [E; 2]) -> u8 { 0u8 }"
     lit_ok = "[E::A, E::B(3, S {a: 1, b: (true, -5)})]"
@@ -366,7 +422,8 @@ def run(ctx):
         "distinct_nontrivial": len(distinct),
         "rule": "hand-written end-of-input / boundary texts; every corpus program and random perturbations of it (prefix at a token or "
                 "character boundary, token deletion / duplication / swap / substitution (free and class-preserving) / insertion); random "
-                "token soup over the language's alphabet; random characters; perturbed literal strings through parse_arg. Each text goes "
+                "token soup over the language's alphabet; random characters; programs around constant declarations whose expressions mix types freely (literals of any type, external "
+                "values, earlier / later / unknown constants, min / max, + / -); perturbed literal strings through parse_arg. Each text goes "
                 "through scan, parse, type check and compile in a worker with a per-case deadline; the outcome must be ok or a non-empty "
                 "error list whose locations are well-formed and renderable. Every distinct text is also scanned by the Lean scanner model "
                 "(tokens, errors and locations compared exactly) and the reported and random locations are rendered by both "
